@@ -58,7 +58,31 @@ ISOS = {
     "I5": ("point", "M2", "m0", "A1", "a0", "tp", "none"),
     "I6": ("point", "M2", "m0", "A1", "a0", "tp", "list"),
     "I7": ("point", "M1", "m1", "A2", "a0", "tp", "none"),   # relative pressure: pressure_unit None
+    # stored in NON-DEFAULT representations (every label and raw number must come back as stored)
+    "I10": ("point", "M1", "m1", "A1", "a0", "tp", "plain"),   # 30 degC, torr, cm3 gas per cm3 of material
+    "I11": ("point", "M2", "m0", "A2", "a0", "tp", "none"),    # percent loading: loading_unit None -> not storable
+    "I12": ("model", "M2", "m0", "A1", "a0", "tm", "plain"),   # 0 degC, kPa, mg per mmol of material
 }
+# units / temperature of the fixtures that do not use the defaults; I2 is recorded at 0 degC (a falsy number)
+ISO_UNITS = {
+    "I2": dict(temperature_unit="°C"),
+    "I7": dict(pressure_mode="relative", pressure_unit=None),
+    "I10": dict(temperature_unit="°C", pressure_unit="torr", loading_basis="volume_gas", loading_unit="cm3",
+                material_basis="volume", material_unit="cm3"),
+    "I11": dict(loading_basis="percent", loading_unit=None),
+    "I12": dict(temperature_unit="°C", pressure_unit="kPa", loading_basis="mass", loading_unit="mg",
+                material_basis="molar", material_unit="mmol"),
+}
+ISO_TEMP = {"I2": 0.0, "I10": 30.0, "I12": 0.0}
+
+
+def iso_temperature(key):
+    """The number in the temperature column (in the isotherm's own temperature unit)."""
+    if key in ISO_TEMP:
+        return ISO_TEMP[key]
+    return 77.0 + len(key) + int(key[1:]) * 1.5
+
+
 ISO_META = {
     # floats equal to 1 / 0 / -1 are ordinary floats (not bools); ints 1 / 0 belong to the REAL-affinity class
     "I1": {"vkey": "I1", "note": "abc def", "x_float": 1.25, "flag": True, "user": "Zoë", "sample_mass": 1.0,
@@ -69,6 +93,9 @@ ISO_META = {
     "I5": {"vkey": "I5", "missing": None},
     "I6": {"vkey": "I6", "tags": ["a", "b"]},
     "I7": {"vkey": "I7"},
+    "I10": {"vkey": "I10", "x_float": 2.5},
+    "I11": {"vkey": "I11"},
+    "I12": {"vkey": "I12", "note": "zero celsius"},
 }
 MC_ISOS = ["I1", "I2", "I3"]
 EXTRA_COLUMNS = {}     # isotherm key -> names of additional float data columns
@@ -90,7 +117,12 @@ def universe_json(isos=None, traits=None):
         "isomat": {i: ISOS[i][1] for i in isos}, "isomatver": {i: ISOS[i][2] for i in isos},
         "isoads": {i: ISOS[i][3] for i in isos}, "isoadsver": {i: ISOS[i][4] for i in isos},
         "isoty": {i: ISOS[i][5] for i in isos}, "isoclass": {i: ISOS[i][6] for i in isos},
+        "isotemp": {i: temp_token(iso_temperature(i)) for i in isos},
     }
+
+
+def temp_token(x):
+    return "T%g" % float(x)
 
 
 def make_adsorbate(key, ver):
@@ -120,12 +152,11 @@ def make_isotherm(key):
     from pygaps.modelling import model_from_dict
     kind, mk, mv, ak, av, _ty, _cls = ISOS[key]
     units = dict(UNITS)
-    if key == "I7":
-        units.update(pressure_mode="relative", pressure_unit=None)
+    units.update(ISO_UNITS.get(key, {}))
     # the adsorbate can only be given by name (an Adsorbate object makes BaseIsotherm.__init__ raise):
     # in a fresh session the name resolves to a property-less Adsorbate, content "a0"
     common = dict(material=make_material(mk, mv), adsorbate=NAMES["ads"][ak],
-                  temperature=77.0 + len(key) + int(key[1:]) * 1.5, **units, **ISO_META[key])
+                  temperature=iso_temperature(key), **units, **ISO_META[key])
     if kind == "point" and key in LARGE_POINTS:
         import numpy
         p = numpy.linspace(0.001, 0.987654321, LARGE_POINTS[key])
@@ -506,8 +537,10 @@ SITE = {
 }
 
 
-def op(name, d="d1", k="", v="", ow=False, ai=False, am=False, aa=False, by="", cm="*", ca="*"):
-    return {"op": name, "d": d, "k": k, "v": v, "ow": ow, "ai": ai, "am": am, "aa": aa, "by": by, "cm": cm, "ca": ca}
+def op(name, d="d1", k="", v="", ow=False, ai=False, am=False, aa=False, by="", cm="*", ca="*", ct="*", cy="*"):
+    """cm / ca / ct / cy: criteria of isotherms_from_db on material / adsorbate / temperature / iso_type
+    ("*" none, "nomatch" a value no stored isotherm has, otherwise a key / temperature token)."""
+    return {"op": name, "d": d, "k": k, "v": v, "ow": ow, "ai": ai, "am": am, "aa": aa, "by": by, "cm": cm, "ca": ca, "ct": ct, "cy": cy}
 
 
 def iso_diff(sess, key, got):
@@ -662,10 +695,18 @@ def execute(sess, o):
         elif name == "iso_from":
             crit = {}
             if o["cm"] != "*":
-                crit["material"] = NAMES["mats"][o["cm"]]
+                crit["material"] = NAMES["mats"].get(o["cm"], "no such material")
             if o["ca"] != "*":
-                crit["adsorbate"] = NAMES["ads"][o["ca"]]
-            objs = ps.isotherms_from_db(criteria=crit or None, db_path=path, verbose=False)
+                crit["adsorbate"] = NAMES["ads"].get(o["ca"], "no such adsorbate")
+            if o.get("ct", "*") != "*":
+                t = 987.25 if o["ct"] == "nomatch" else float(o["ct"][1:])
+                # a whole number is given as int or as float, alternately (0 and 0.0 are both falsy)
+                sess.ncrit = getattr(sess, "ncrit", 0) + 1
+                crit["temperature"] = int(t) if t == int(t) and sess.ncrit % 2 else t
+            if o.get("cy", "*") != "*":
+                crit["iso_type"] = NAMES["ity"].get(o["cy"], "no such type")
+            sess.nfrom = getattr(sess, "nfrom", 0) + 1
+            objs = ps.isotherms_from_db(criteria=crit if (crit or sess.nfrom % 2) else None, db_path=path, verbose=False)
             ret = {k: ABSENT for k in sess.universe_isos}
             diffs = {}
             for x in objs:
